@@ -129,11 +129,41 @@ pub fn run(tier: Tier) -> i32 {
                     forms.push(("UPPER", upper));
                 }
             }
+            // the same forms written with a typographic apostrophe
+            let curly: Vec<(&str, Vec<char>)> = forms
+                .iter()
+                .filter(|(_, f)| f.contains(&'\''))
+                .map(|(n, f)| {
+                    let name = match *n { "listed" => "listed-curly", "Capitalised" => "Capitalised-curly", _ => "UPPER-curly" };
+                    (name, f.iter().map(|c| if *c == '\'' { '’' } else { *c }).collect::<Vec<char>>())
+                })
+                .collect();
+            if class == WordClass::Lexical {
+                forms.extend(curly);
+            }
+            // a listed word with capitals right after its own lower-cased form in the same document
+            let low: Vec<char> = w.iter().flat_map(|c| c.to_lowercase()).collect();
+            let after_lower = class == WordClass::Lexical && low != *w && low.len() == w.len();
             for (di, d) in DIALECTS.iter().enumerate() {
                 if let Some(md) = &md {
                     if md.dialect.is_some_and(|wd| wd != *d) {
                         skipped_dialect += 1;
                         continue;
+                    }
+                }
+                if after_lower && di == 0 {
+                    evals += 1;
+                    let text = format!("{} and {}.", c2s(&low), c2s(w));
+                    let ws = low.len() + 5;
+                    if let Ok(lints) = catch(|| {
+                        let doc = Document::new_plain_english(&text, &*dict);
+                        groups[di].lint(&doc)
+                    }) {
+                        if !spelling_lints_on(&lints, ws, ws + w.len()).is_empty() && viols.iter().filter(|v| v.sig.starts_with("listed-word-flagged:after")).count() < 4 {
+                            viols.push(Violation { sig: "listed-word-flagged:after-its-own-lower-cased-form".into(), case: json!({"engine":"E1","text": text, "word": c2s(w), "dialect": format!("{d:?}"), "frame": "lower-and-listed"}), detail: json!({}) });
+                        }
+                    } else {
+                        groups[di] = spell_only(*d, dict.clone());
                     }
                 }
                 for (fname, form) in &forms {
